@@ -255,6 +255,25 @@ def _iso_random(rng):
     return c
 
 
+def _iso_equal_count(rng):
+    """Every non-missing sample has exactly ONE isolated NaN, at a position that moves from sample to sample:
+    all samples then hold the same number of valid features (a count-based isolated-NaN test must compare that
+    number with the number of valid FEATURES, not with the other samples)."""
+    c = _single_random(rng, cls="EOF")
+    c.update(kind="iso", sub="iso_equal_count_per_sample")
+    _, p = _part_cols(c["parts"])
+    n = int(np.prod(c["sshape"]))
+    vr = [i for i in range(n) if i not in c["rows"]]
+    vc = [j for j in range(p) if j not in c["cols"]]
+    if len(vc) < 3 or len(vr) < 3:
+        c["rows"], c["cols"] = [], []
+        vr, vc = list(range(n)), list(range(p))
+    off = int(rng.integers(0, len(vc)))
+    c["iso"] = [[int(r), int(vc[(i + off) % len(vc)])] for i, r in enumerate(vr)]
+    c["lost"] = 1
+    return c
+
+
 def _listpartial_random(rng):
     c = _single_random(rng, cls="EOF", container="list")
     c.update(kind="listpartial", sub="list_sample_missing_in_some_elements", rows=[], iso=[], sdims=["time"])
@@ -369,6 +388,8 @@ def cases(tier, seed):
         out.append(_single_random(gen.rng_for(seed, 6, 1, i)))
     for i in range(nrand["iso"]):
         out.append(_iso_random(gen.rng_for(seed, 6, 2, i)))
+    for i in range(max(6, nrand["iso"] // 10)):
+        out.append(_iso_equal_count(gen.rng_for(6606, i)))
     for i in range(nrand["listpartial"]):
         out.append(_listpartial_random(gen.rng_for(seed, 6, 3, i)))
     for i in range(nrand["cross"]):
@@ -1040,7 +1061,7 @@ def _run_iso(case, obs):
     rk, ck = _keep(n, rows), _keep(p, cols)
     M0 = _matrix(n, p, case["dseed"])
     Mi = _apply_mask(M0, rows, cols, iso)
-    lost = len(iso)
+    lost = int(case.get("lost", len(iso)))
     if case["kind"] == "listpartial":
         a, b = fld.spans[case["elem"]]
         Mi[np.ix_(case["prow"], range(a, b))] = np.nan
